@@ -35,7 +35,7 @@ func (g *Generator) generateStructTypeAndMethods(definition tlparser.Object, imp
 		if param.Type == "bitflags" {
 			continue
 		}
-		fields[i] = g.generateStructParameter(&param)
+		fields[i] = g.generateStructParameter(&param, implementsMethods)
 	}
 	typeDefinition = jen.Type().Id(structName).Struct(fields...)
 
@@ -98,8 +98,23 @@ func (g *Generator) generateStructTypeAndMethods(definition tlparser.Object, imp
 	return result
 }
 
-func (g *Generator) generateStructParameter(param *tlparser.Parameter) *jen.Statement {
-	goifiedName := goify(param.Name, true)
+// fieldName is the name of the struct field generated for a schema parameter. A field can not be named like
+// a method of its struct (CRC, FlagIndex, Implements<Interface>): such a field gets a trailing underscore.
+func fieldName(paramName string, implementsMethods []string) string {
+	name := goify(paramName, true)
+	reserved := name == "CRC" || name == "FlagIndex"
+	for _, suffixName := range implementsMethods {
+		reserved = reserved || name == "Implements"+suffixName
+	}
+	if reserved {
+		name += "_"
+	}
+
+	return name
+}
+
+func (g *Generator) generateStructParameter(param *tlparser.Parameter, implementsMethods []string) *jen.Statement {
+	goifiedName := fieldName(param.Name, implementsMethods)
 	tag := "" // то что в `tl:"..."` находится
 	f := jen.Id(goifiedName)
 	if param.IsVector {
